@@ -19,6 +19,7 @@ mod c06;
 mod c16;
 mod ls;
 mod c07;
+mod c09;
 mod inputs;
 
 #[path = "/repo/harper-ls/src/git_commit_parser.rs"]
@@ -63,6 +64,7 @@ fn main() {
         "c16" => c16::main(&a),
         "lsdemo" => ls::demo(&a),
         "c07" => c07::main(&a),
+        "c09" => c09::main(&a),
         other => {
             eprintln!("unknown subcommand {other}");
             std::process::exit(2);
